@@ -75,6 +75,8 @@ def load_fonts():
     _FONTS["tiny:lsb-shift"] = (tinyfont.to_bytes(f), 0)
     _FONTS["tiny:anchor-points"] = (anchor_point_font(), 0)
     _FONTS["tiny:transformed-components"] = (transformed_component_font(), 0)
+    for name, data in t2_operator_fonts():
+        _FONTS[name] = (data, 0)
 
 
 def anchor_point_font():
@@ -134,6 +136,92 @@ def transformed_component_font():
     for name, _t, _fl in variants:
         f["hmtx"].metrics[name] = (600, f["glyf"][name].xMin)
     return tinyfont.to_bytes(f)
+
+
+def t2_programs():
+    """One glyph per Type 2 path operator and argument-count form (operands are distinct small
+    integers so that every argument position matters), incl. flex variants, multi-contour
+    programs, hint operators with masks, and subroutine calls."""
+    progs = {}
+    vals = [13, -7, 21, 9, -17, 5, 31, -11, 19, 3, -23, 7, 29, -5, 15, 11, -13, 23, 6, -9, 17, 4, -19, 8, 27, -3]
+
+    def take(n, off=0):
+        return [vals[(off + i) % len(vals)] for i in range(n)]
+
+    def add(name, body):
+        progs[name] = [50, 60, "rmoveto"] + body + ["endchar"]
+
+    for n in (1, 2, 3):
+        add("rlineto%d" % n, take(2 * n) + ["rlineto"])
+    for n in (1, 2, 3, 4, 5):
+        add("hlineto%d" % n, take(n) + ["hlineto"])
+        add("vlineto%d" % n, take(n, 3) + ["vlineto"])
+    for n in (1, 2):
+        add("rrcurveto%d" % n, take(6 * n) + ["rrcurveto"])
+    for n in (4, 5, 8, 9):
+        add("hhcurveto%d" % n, take(n) + ["hhcurveto"])
+        add("vvcurveto%d" % n, take(n, 2) + ["vvcurveto"])
+    for n in (4, 5, 8, 9, 12, 13):
+        add("hvcurveto%d" % n, take(n) + ["hvcurveto"])
+        add("vhcurveto%d" % n, take(n, 5) + ["vhcurveto"])
+    add("rcurveline8", take(8) + ["rcurveline"])
+    add("rcurveline14", take(14) + ["rcurveline"])
+    add("rlinecurve8", take(8) + ["rlinecurve"])
+    add("rlinecurve10", take(10) + ["rlinecurve"])
+    add("flex", take(12) + [50, "flex"])
+    add("hflex", take(7) + ["hflex"])
+    add("hflex1", take(9) + ["hflex1"])
+    add("flex1_dx", [40, 3, 30, 2, 20, 1, 25, -2, 35, 4, 17, "flex1"])
+    add("flex1_dy", [3, 40, 2, 30, 1, 20, -2, 25, 4, 35, 17, "flex1"])
+    progs["hmoveto"] = [70, "hmoveto", 30, 40, -30, "hlineto", -25, "hmoveto", 10, 20, "rlineto", "endchar"]
+    progs["vmoveto"] = [70, "vmoveto", 30, 40, -30, "vlineto", 45, "vmoveto", 10, 20, 5, 5, "rlineto", "endchar"]
+    progs["twocontours"] = [10, 10, "rmoveto", 100, 0, 0, 100, -100, 0, "rlineto", 200, 50, "rmoveto", 10, 90, 40, 20, 30, -60, "rrcurveto", "endchar"]
+    progs["hinted"] = [20, 30, "hstem", 40, 20, "vstem", 50, 60, "rmoveto"] + take(4) + ["rlineto", "endchar"]
+    progs["hintmask"] = [20, 30, 100, 20, "hstemhm", 40, 20, 60, 10, "hintmask", b"\xf0", 50, 60, "rmoveto"] + take(4) + ["rlineto", "hintmask", b"\x50"] + take(2, 7) + ["rlineto", "endchar"]
+    progs["width_rmoveto"] = [77, 50, 60, "rmoveto"] + take(4) + ["rlineto", "endchar"]
+    progs["width_hmoveto"] = [77, 50, "hmoveto"] + take(4) + ["rlineto", "endchar"]
+    progs["width_endchar"] = [77, "endchar"]
+    progs["fractional"] = [50.5, 60.25, "rmoveto", 10.5, 20.75, -5.25, 7.5, "rlineto", "endchar"]
+    progs["bigints"] = [1131, -1131, "rmoveto", 1132, -1132, 20000, -108, "rlineto", 107, 108, "rlineto", "endchar"]
+    return progs
+
+
+def t2_operator_fonts():
+    from fontTools.fontBuilder import FontBuilder
+    from fontTools.misc.psCharStrings import T2CharString
+
+    progs = t2_programs()
+    names = [".notdef"] + sorted(progs)
+    out = []
+    fb = FontBuilder(1000, isTTF=False)
+    fb.setupGlyphOrder(names)
+    fb.setupCharacterMap({0x100 + i: n for i, n in enumerate(names[1:])})
+    cs = {".notdef": T2CharString(program=["endchar"])}
+    for n, p in progs.items():
+        cs[n] = T2CharString(program=list(p))
+    fb.setupCFF("T2Ops", {"FullName": "T2 Ops"}, cs, {"defaultWidthX": 500, "nominalWidthX": 400})
+    fb.setupHorizontalMetrics({n: (477 if n.startswith("width_") else 500, 0) for n in names})
+    fb.setupHorizontalHeader(ascent=800, descent=-200)
+    fb.setupNameTable({"familyName": "T2Ops", "styleName": "Regular"})
+    fb.setupOS2()
+    fb.setupPost()
+    out.append(("tiny:t2-operators-cff", tinyfont.to_bytes(fb.font)))
+    # the same programs as CFF2 (no widths, no endchar, no hint-less width forms)
+    fb = FontBuilder(1000, isTTF=False)
+    names2 = [".notdef"] + sorted(n for n in progs if not n.startswith("width_"))
+    fb.setupGlyphOrder(names2)
+    fb.setupCharacterMap({0x100 + i: n for i, n in enumerate(names2[1:])})
+    cs = {".notdef": T2CharString(program=[])}
+    for n in names2[1:]:
+        cs[n] = T2CharString(program=[t for t in progs[n] if t != "endchar"])
+    fb.setupCFF2(cs)
+    fb.setupHorizontalMetrics({n: (500, 0) for n in names2})
+    fb.setupHorizontalHeader(ascent=800, descent=-200)
+    fb.setupNameTable({"familyName": "T2Ops", "styleName": "Regular"})
+    fb.setupOS2()
+    fb.setupPost()
+    out.append(("tiny:t2-operators-cff2", tinyfont.to_bytes(fb.font)))
+    return out
 
 
 def get_open(key):
@@ -207,7 +295,7 @@ class Outlines(Unit):
             "x location lattice per axis {default, min, max, mid-, mid+, below-min, above-max, avar knots, knot midpoints} (quick: one axis off default + extreme corners; thorough: full product for <=3 axes): "
             "fontTools glyphSet draw + width vs HarfBuzz draw_glyph + h_advance; distinct = (font, location, glyph) with a non-empty outline")
     chunk = 1
-    required_witnesses = ("composite glyph", "cff glyph", "cff2 blended glyph", "gvar glyph", "avar font", "out-of-range location", "HVAR advance", "quadratic implied points")
+    required_witnesses = ("t2 flex operators", "composite glyph", "cff glyph", "cff2 blended glyph", "gvar glyph", "avar font", "out-of-range location", "HVAR advance", "quadratic implied points")
 
     def setup(self, tier, seed):
         load_fonts()
@@ -269,6 +357,8 @@ class Outlines(Unit):
                 rec.nontrivial([key, sorted(loc.items()), gid])
                 if pen.components:
                     rec.witness("composite glyph")
+                if gn.startswith(("flex", "hflex")):
+                    rec.witness("t2 flex operators")
                 if is_cff:
                     rec.witness("cff glyph")
                     if loc and "CFF2" in font:
